@@ -28,6 +28,7 @@ def run(rep):
     rep.guard(c03.t6, rep, w)     # string literals: escapes are cut out of the source only at character boundaries
     import c01, c01_flow
     rep.guard(c01_flow.r5b, rep, w, c01.may_gc(w))     # slicing copies operands off the stack: they stay rooted until the result exists
+    rep.guard(c01.r2, rep, w)     # a remembered slice keyed by the addresses of its operands is only right while those objects live: the interpreter holds no unrooted handle
 
 
 def u1(rep, w):
